@@ -35,7 +35,21 @@ Genuine defects found on the unchanged tree (details in the builder's report):
 
 Mutation testing (FRAMEWORK rule 3; scratch worktree with the C33 and C34(b) fixes applied and the C34(a)
 classes listed as known findings, so that the baseline is green; every mutant must turn the check red):
-@@MUTATIONS@@
+  C33 (all caught, exit 1): delta offset taken from the payload-length field; delta prev payload one byte too
+      long; join frame reported as leave; p1 epoch truncated at the first ':'; delta flag dropped; p1 offset
+      parsed in base 8; p1 payload starting one byte late; each of the four added bounds checks reverted
+      separately (short "__p" header, negative prev length, missing separator after prev, negative payload
+      length).  The last one was MISSED by the first version of quick.cfg (no row reached the second
+      length field with a sign) -> families d1y / d1z ("__d1:1:x:0::" / "__d1:1:x:1:x:" ++ tails) added.
+  C34 (all caught, exit 1): history meta key without the tag braces (cluster); result-cache key built from a
+      hard-coded prefix (caught through the {p} prefix class); sharded channel id from the partition of a
+      different hash; extractChannel trimming one character too many (cluster); presence user-set key without
+      braces; map cleanup registration key with the numeric index (inverse of defect (b)); sharded
+      extractChannel splitting at the LAST dot; map state-order key outside the partition tag.
+  C35 (all caught, exit 1): one precomputed tag altered (ms3 -> ms4: balance of size 16 on 8 masters);
+      TagSlot modulo 16383; table of size 32 returned for 64; SlotToNode boundary r*sn instead of r*(sn+1)
+      (first run: harness crashed with an index error = exit 2 -> range guard added, now exit 1); a tag
+      containing '}'; a duplicated tag; crc16 polynomial 0x1023.
 """
 import json
 import os
@@ -219,7 +233,7 @@ def c35(c):
     c.cov['balance_pairs_by_tlc'] = nbal
     c.cov['balance_pairs_by_harness_sweep'] = res['counters'].get('balance_pairs_by_harness_sweep', 0)
     c.cov['rediscli_float_split_information'] = res['extra'].get('rediscli_float_split')
-    c.cov['rule'] = ('every precomputed size P of the code and the cluster sizes k <= P selected by spec/Partition/%s (quick: all k for P <= 256, a stride for larger P; '
+    c.cov['rule'] = ('every precomputed size P of the code and the cluster sizes k <= P selected by spec/Partition/%s (quick: all k for P <= 128, a stride for larger P; '
                      'thorough: all k); the remaining (P,k) are swept by the harness with the same assignment formula, cross-checked against TLC on sampled k; '
                      'non-trivial = (P,k) rows and sizes' % cfg)
     c.cov['samples'] = [{'size': x[1], 'k': x[2], 'floor': x[3], 'ceil': x[4], 'min': x[5], 'max': x[6]} for x in rows if x[0] == 'bal' and x[2] in (3, 7, 100)][:3]
@@ -248,7 +262,7 @@ META = {
     'C35': dict(
         level='model_checking',
         text='The precomputed partition tag tables are dumped from the code (PrecomputedSizes / FindTags) into a generated TLA+ data module and validated against an independent oracle: CRC16-XMODEM written as bit-serial polynomial division (Bitwise xor, no table), slot = crc mod 16384, and the even contiguous slot-to-node assignment of a k-master cluster. TLC computes, per supported size, the slots, their pairwise distinctness and the tag character set, and per (size, cluster size) the minimum and maximum per-node partition count; rows that falsify the property are violations. The Go harness compares the spec slot of every tag with the code\'s TagSlot, the assignment with SlotToNode for every slot and every cluster size up to 4096, and recomputes every (P,k) count with the code\'s functions.',
-        note='quick: all cluster sizes for P <= 256, strided for 512..4096 in TLC and all remaining (P,k) by the harness sweep with the same formula; thorough: every (P,k), k <= P, in TLC. Trusted: TLC + the Bitwise module override, the generated data module writer, the harness.',
+        note='quick: all cluster sizes for P <= 128, strided for 256..4096 in TLC and all remaining (P,k) by the harness sweep with the same formula; thorough: every (P,k), k <= P, in TLC. Trusted: TLC + the Bitwise module override, the generated data module writer, the harness.',
         technique='code data dumped into a TLA+ data module + TLC evaluation of an independent CRC16 / slot-assignment oracle; table comparison with TagSlot / SlotToNode in the Go harness',
         design_ref='DESIGN.md 4.4, 8 (C35)'),
 }
